@@ -233,14 +233,27 @@ Definition tr_events (tr : list (dop * dres * list devent)) : list devent := fla
 Definition ev_id (e : devent) : N := match e with EvAdded id _ | EvRemoved id _ => id end.
 Definition events_for (id : N) (evs : list devent) : list devent := filter (fun e => ev_id e =? id) evs.
 
-(* the ids a client knows to be visible from the results it has seen: serviceReady
-   succeeded and no unregisterService succeeded since *)
-Fixpoint visible (tr : list (dop * dres * list devent)) (acc : list N) : list N :=
-  match tr with
-  | [] => acc
-  | (OReady id, ROk, _) :: r => visible r (id :: acc)
-  | (OUnregister id, ROk, _) :: r => visible r (remove N.eq_dec id acc)
-  | _ :: r => visible r acc
+(* The life of one identifier as the results of a run show it: handed out by a successful
+   registerService, made visible by a successful serviceReady, ended by a successful
+   unregisterService.  These are the transitions the property speaks about. *)
+Inductive lifecycle := LNone | LStaged (n : string) | LReady (n : string) | LGone (n : string) (was_ready : bool).
+Definition life_step (id : N) (l : lifecycle) (x : dop * dres * list devent) : lifecycle :=
+  match x with
+  | (ORegister i, RId id', _) => if id' =? id then LStaged (i_name i) else l
+  | (OReady id', ROk, _) =>
+      if id' =? id then match l with LStaged n => LReady n | _ => l end else l
+  | (OUnregister id', ROk, _) =>
+      if id' =? id then match l with LStaged n => LGone n false | LReady n => LGone n true | _ => l end else l
+  | _ => l
+  end.
+Definition lifecycle_of (id : N) (tr : list (dop * dres * list devent)) : lifecycle :=
+  fold_left (life_step id) tr LNone.
+(* the signals that life calls for *)
+Definition life_events (id : N) (l : lifecycle) : list devent :=
+  match l with
+  | LNone | LStaged _ | LGone _ false => []
+  | LReady n => [EvAdded id n]
+  | LGone n true => [EvAdded id n; EvRemoved id n]
   end.
 
 (* ---------- equality on results (for lin_check and the run files) ---------- *)
